@@ -14,9 +14,12 @@ def dispatch (table : String) (toks : List String) (res : String) : Option Verdi
   match table with
   | "CS" => checkCS toks
   | "C01" => checkC01 toks res
+  | "C01w" => checkC01w toks res
   | "C02" => checkC02 toks res
+  | "C02w" => checkC02w toks res
   | "C03" => checkC03 toks res
   | "C04" => checkC04 toks res
+  | "C04w" => checkC04w toks res
   | "C05" => checkC05 toks res
   | "C06" => checkC06 toks res
   | "C07" => checkC07 toks res
